@@ -76,8 +76,11 @@ impl C14 {
                 _ => Req::Remote { n, a, key, c: Some(rng.below(3)), ts: *rng.pick(&[5u64, 9, 10]) },
             };
         }
-        match rng.below(24) {
-            0..=3 => Req::Open { n, sync: rng.chance(1, 2), sub: rng.chance(1, 4) },
+        match rng.below(28) {
+            24..=25 => Req::State { n },
+            26 => Req::Import { n, write: true },
+            27 => Req::Subscribe { n },
+            0..=3 => Req::Open { n, sync: rng.chance(1, 2), sub: rng.chance(1, 3) },
             4..=6 => Req::Close { n },
             7 => Req::SetSync { n, sync: rng.chance(1, 2) },
             8 => Req::Subscribe { n },
@@ -154,6 +157,14 @@ impl Property for C14 {
                     Req::GetMany { n: 0 },
                 ]] },
             ]),
+            ("upgrade-while-open-keeps-subscribers".into(), vec![
+                Op::Setup { docs: vec![Some(false), None, None] },
+                Op::Clients { seqs: vec![vec![
+                    Req::Open { n: 0, sync: true, sub: true }, Req::Subscribe { n: 0 }, Req::Open { n: 0, sync: false, sub: false }, Req::State { n: 0 },
+                    Req::Import { n: 0, write: true }, Req::State { n: 0 }, Req::Local { n: 0, a: 0, key: b"k".to_vec(), c: 0, ts: 0 }, Req::State { n: 0 },
+                    Req::Import { n: 0, write: false }, Req::State { n: 0 },
+                ]] },
+            ]),
             ("upgrade-while-open".into(), vec![
                 Op::Setup { docs: vec![Some(false), None, None] },
                 Op::Clients { seqs: vec![vec![
@@ -165,7 +176,7 @@ impl Property for C14 {
         ]
     }
     fn generate(&self, rng: &mut Rng, _i: usize, thorough: bool) -> Vec<Op> {
-        let docs = (0..3).map(|i| if i == 0 || rng.chance(1, 2) { Some(rng.chance(3, 4)) } else { None }).collect();
+        let docs = (0..3).map(|i| if i == 0 || rng.chance(1, 2) { Some(rng.chance(2, 3)) } else { None }).collect();
         let nclients = rng.range(1, 3);
         let max = if thorough { 20 } else { 12 };
         let seqs = (0..nclients).map(|c| (0..rng.range(2, max)).map(|_| self.gen_req(rng, c)).collect()).collect();
@@ -377,6 +388,13 @@ impl Property for C14 {
             };
             if let Some((doc, obs)) = sync_obs {
                 lines.push(Line::oracle(format!("ssync 1 {doc}"), obs));
+            }
+            // specification (C14, "replies reflect all earlier requests"): the subscriber count in a
+            // state reply is the number of acknowledged subscriptions since the document became open
+            if toks.get(2).copied() == Some("state") {
+                if let Some(n) = out.strip_prefix("state ").and_then(|r| r.split(' ').nth(1)) {
+                    lines.push(Line::oracle(format!("ssubs 1 {}", toks[3]), n.to_string()));
+                }
             }
             if let Some(doc) = doc {
                 let writable = if out.starts_with("inserted") || out == "notinserted" || out.starts_with("secret") {
